@@ -1,7 +1,7 @@
 #!/usr/bin/env python3
 """selftest.py [filter] : run every mutant in mutants/index.json (or those whose patch name
 contains `filter`) through tools/mutant.py and report which checks fired."""
-import json, os, subprocess, sys
+import json, os, re, subprocess, sys
 HERE = os.path.dirname(os.path.dirname(os.path.abspath(__file__)))
 idx = json.load(open(os.path.join(HERE, "mutants", "index.json")))
 flt = sys.argv[1] if len(sys.argv) > 1 else ""
@@ -10,7 +10,7 @@ sd = os.path.join(HERE, "seeded")
 for d in sorted(os.listdir(sd)) if os.path.isdir(sd) else []:
     pth = os.path.join(sd, d, "patch.diff")
     if os.path.exists(pth):
-        idx.append({"patch": os.path.join("..", "seeded", d, "patch.diff"), "checks": [d.split("-")[0]], "what": "seeded change for %s" % d})
+        idx.append({"patch": os.path.join("..", "seeded", d, "patch.diff"), "checks": [re.match(r"C\d+", d).group(0)], "what": "seeded change for %s" % d})
 bad = 0
 for m in idx:
     if flt and flt not in m["patch"]:
